@@ -440,6 +440,40 @@ func c16Disturb(c *CaseC16, variant int) *CaseC16 {
 	return &d
 }
 
+// c16CrossDisturb runs a few *other* operations on the (disturbed) boxes of the case: state shared between
+// different operations (a common cache, a reused scratch buffer) would be exercised by them.
+func c16CrossDisturb(d *CaseC16) {
+	var bs []ref.Box
+	switch {
+	case d.C03 != nil:
+		bs = d.C03.Boxes
+	case d.C04 != nil:
+		bs = d.C04.Boxes
+	case d.C05 != nil:
+		bs = append(append([]ref.Box{}, d.C05.A...), d.C05.B...)
+	case d.C08 != nil:
+		bs = d.C08.Boxes
+	case d.C11 != nil:
+		bs = d.C11.Boxes
+	}
+	if len(bs) == 0 {
+		return
+	}
+	if len(bs) > 4 {
+		bs = bs[:4]
+	}
+	ids := boxesExt(bs)
+	b := bs[0]
+	_, _ = integrate.ChangeExtendedSpatialIdsZoom(ids[:1], clamp64(b.H-1, 0, 35), clamp64(b.V+1, 0, 35))
+	_, _ = integrate.MergeExtendedSpatialIds(ids[:1], clamp64(b.H-1, 0, 35), clamp64(b.V-1, 0, 35))
+	_, _ = operated.GetNspatialIdsAroundVoxcels(ids[:1], 1, 1)
+	_, _ = detector.CheckExtendedSpatialIdsArrayOverlap(ids, ids[:1])
+	if b.H >= 1 && b.H <= 31 {
+		_, _ = transform.ConvertExtendedSpatialIDsToQuadkeysAndVerticalIDs(ids[:1], b.H, b.V, 0, 0)
+	}
+	_, _ = shape.GetPointOnExtendedSpatialId(ids[0], 0)
+}
+
 func sameStrings(a, b []string) bool {
 	if len(a) != len(b) {
 		return false
@@ -489,6 +523,7 @@ func checkC16(c *CaseC16, fl *Fails) {
 	for i := 0; i < 3; i++ {
 		if d := c16Disturb(c, i); d != nil {
 			_ = c16Run(d, nil, nil, nil)
+			c16CrossDisturb(d)
 		}
 		again := c16Run(c, nil, nil, nil)
 		if again.err != base.err || !sameStrings(again.set, base.set) {
